@@ -1,88 +1,82 @@
 import NixModel.Lemmas.C12Unch
 
 /-!
-# C12 — deleting an auto-created array again (`del self.data_arrays[name]` → `delete_all([id])`)
+# C12 — deleting an auto-created array again (`del self.data_arrays[name]` → `delete_all([array])`)
 
-`delete_all` filters *every* link list of the file by the `entity_id` of the targets. When the id
-is the one just drawn for the auto-created array, the only link of an old node it removes is the
-entry just made; whatever happened in between (`Unch`) stays invisible.
+`delete_all` filters *every* link list of the file by the target object. The auto-created array is a
+new object, so the only link of an old node it removes is the entry just made; whatever happened in
+between (`Unch`) stays invisible.
 -/
 namespace Nix.Store.Lemmas
 open Nix.Store Nix.Store.Graph
 
-theorem keepLink_of_ne {h : Graph} {i : String} {l : String × Nat} (hne : h.entityId l.2 ≠ some i) :
-    keepLink h [i] l = true := by
-  unfold keepLink
-  cases he : h.entityId l.2 with
-  | none => rfl
-  | some j =>
-    have : j ≠ i := fun e => hne (by rw [he, e])
-    simp [this]
+theorem keepObj_of_ne {K : Nat} {l : String × Nat} (hne : l.2 ≠ K) : keepObj [K] l = true := by
+  unfold keepObj
+  simp [hne]
 
-theorem keepLink_of_eq {h : Graph} {i : String} {l : String × Nat} (he : h.entityId l.2 = some i) :
-    keepLink h [i] l = false := by
-  unfold keepLink
+theorem keepObj_of_eq {K : Nat} {l : String × Nat} (he : l.2 = K) : keepObj [K] l = false := by
+  unfold keepObj
   simp [he]
 
 theorem filter_all_kept {α : Type} {l : List α} {p : α → Bool} (h : ∀ x ∈ l, p x = true) : l.filter p = l :=
   List.filter_eq_self.mpr h
 
 /-- the life cycle of an auto-created array `K` (entry `nm` of the container `c`, id `i`): created
-(`Plus`), anything unobservable in between (`Unch`), deleted through `delete_all([i])` -/
+(`Plus`), anything unobservable in between (`Unch`), deleted through `delete_all([K's object])` -/
 theorem dropAuto_unch {gb g1 h : Graph} {c K : Nat} {nm i : String}
-    (P1 : Plus (Has gb) gb g1 c nm K) (hcb : Has gb c) (hK1 : Has g1 K)
+    (P1 : Plus (Has gb) gb g1 c nm K) (hcb : Has gb c) (hK1 : Has g1 K) (hKnew : ¬ Has gb K)
     (hid : g1.entityId K = some i) (hU : Unch g1 h)
-    (hold : ∀ k l, Has gb k → l ∈ gb.links k → Has gb l.2 ∧ gb.entityId l.2 ≠ some i) :
+    (hold : ∀ k l, Has gb k → l ∈ gb.links k → Has gb l.2) :
     Unch gb (dropAuto h (some K)) := by
   have hidh : h.entityId K = some i := by
     rw [entityId_eq, hU.attrs K hK1 "entity_id", ← entityId_eq]; exact hid
-  have hd : dropAuto h (some K) = h.deleteAll [i] := by
-    unfold dropAuto; simp [hidh]
+  have hd : dropAuto h (some K) = h.deleteObjs [K] := rfl
   rw [hd]
   -- an old link survives the filter
-  have keepOld : ∀ k l, Has gb k → l ∈ gb.links k → keepLink h [i] l = true := by
+  have keepOld : ∀ k l, Has gb k → l ∈ gb.links k → keepObj [K] l = true := by
     intro k l hk hl
-    obtain ⟨ht, hne⟩ := hold k l hk hl
-    apply keepLink_of_ne
-    rw [entityId_eq, hU.attrs l.2 (P1.keeps _ ht) "entity_id", P1.attrs l.2 ht "entity_id", ← entityId_eq]
-    exact hne
-  have keepGhost : ∀ l : String × Nat, EmptyGroup h l.2 → keepLink h [i] l = true := by
+    apply keepObj_of_ne
+    intro e
+    exact hKnew (e ▸ hold k l hk hl)
+  have keepGhost : ∀ l : String × Nat, EmptyGroup h l.2 → keepObj [K] l = true := by
     intro l hg
-    apply keepLink_of_ne
-    rw [entityId_eq, hg.2.2 "entity_id"]
-    simp
+    apply keepObj_of_ne
+    intro e
+    have := hg.2.2 "entity_id"
+    rw [e, ← entityId_eq, hidh] at this
+    cases this
   refine ⟨Nat.le_trans P1.nextKey_le hU.nextKey_le, Nat.le_trans P1.nextId_le hU.nextId_le, ?_, ?_, ?_, ?_⟩
   · intro k hk
     unfold Has
-    rw [node?_isSome_deleteAll]
+    rw [node?_isSome_deleteObjs]
     exact hU.keeps k (P1.keeps k hk)
   · intro k hk
     unfold Has at hk
-    rw [node?_isSome_deleteAll] at hk
+    rw [node?_isSome_deleteObjs] at hk
     exact news_trans P1.nextKey_le hU.nextKey_le P1.news hU.news k hk
   · intro k hk a
-    rw [getAttr_deleteAll, hU.attrs k (P1.keeps k hk) a, P1.attrs k hk a]
+    rw [getAttr_deleteObjs, hU.attrs k (P1.keeps k hk) a, P1.attrs k hk a]
   · intro k hk
     obtain ⟨ex, he, hx⟩ := hU.links k (P1.keeps k hk)
-    have ghostOK : ∀ l ∈ ex, ¬ Has gb l.2 ∧ EmptyGroup (h.deleteAll [i]) l.2 ∧ (k = 0 ∨ kindOf gb k ≠ "") := by
+    have ghostOK : ∀ l ∈ ex, ¬ Has gb l.2 ∧ EmptyGroup (h.deleteObjs [K]) l.2 ∧ (k = 0 ∨ kindOf gb k ≠ "") := by
       intro l hl
       obtain ⟨n1, ⟨m1, m2, m3⟩, n3⟩ := hx l hl
       refine ⟨fun hh => n1 (P1.keeps _ hh), ⟨?_, ?_, ?_⟩, ?_⟩
-      · unfold Has; rw [node?_isSome_deleteAll]; exact m1
-      · rw [links_deleteAll, m2]; rfl
-      · intro a; rw [getAttr_deleteAll]; exact m3 a
+      · unfold Has; rw [node?_isSome_deleteObjs]; exact m1
+      · rw [links_deleteObjs, m2]; rfl
+      · intro a; rw [getAttr_deleteObjs]; exact m3 a
       · rcases n3 with n3 | n3
         · exact .inl n3
         · exact .inr (by rw [← kindOf_of_attrs (P1.attrs k hk)]; exact n3)
-    have exKept : ex.filter (keepLink h [i]) = ex :=
+    have exKept : ex.filter (keepObj [K]) = ex :=
       filter_all_kept (fun l hl => keepGhost l (hx l hl).2.1)
     refine ⟨ex, ?_, ghostOK⟩
-    rw [links_deleteAll, he, List.filter_append, exKept]
+    rw [links_deleteObjs, he, List.filter_append, exKept]
     congr 1
     by_cases hkc : k = c
     · subst hkc
       rw [P1.links_c, List.filter_append, filter_all_kept (fun l hl => keepOld k l hk hl)]
-      have : keepLink h [i] (nm, K) = false := keepLink_of_eq hidh
+      have : keepObj [K] (nm, K) = false := keepObj_of_eq rfl
       simp [List.filter, this]
     · rw [P1.links_ne k hk hkc]
       exact filter_all_kept (fun l hl => keepOld k l hk hl)
